@@ -15,7 +15,7 @@ from harness import tlc, sk, tracecheck, multinet, store_drv, indep, hooktrace
 from harness.common import Check, seed, machinery_failure
 from checks.store import cb, tx, blk
 
-MODEL_CFG = dict(period=1000, timespan=4, initial_subsidy=8, halving=2, max_money=30)
+MODEL_CFG = dict(period=1000, timespan=4, initial_subsidy=8, halving=1000, max_money=30)
 
 UNIVERSES = {
     # name: (parent map, init sets per node, peers)
@@ -116,8 +116,33 @@ class Run:
             net.step(n, m)
             self.record("step", n, m, compare)
         elif a == "orig":
+            if act.get("spend") == "recent":
+                self.use_recent_output()
             net.originate(n, self.t1)
             self.record("orig", n, 1, compare)
+
+    def use_recent_output(self):
+        """Once the nodes share a head: let the transaction spend the reward of a block on that chain which at least one node did not
+        store initially (it was fetched during synchronisation) -- valid at the shared head, on every node."""
+        heads = {node.chain().current_chain_hash for node in self.net.nodes.values()}
+        if len(heads) != 1:
+            return
+        b = self.id_of.get(heads.pop(), 0)
+        cands = []
+        while b != 0:
+            if not all(b in s_ for s_ in self.init.values()):
+                cands.append(b)
+            b = self.parent[b]
+        if not cands:
+            return
+        b = cands[0] if len(cands) == 1 or hash((self.tid, len(cands))) % 3 else cands[1]
+        v = self.w.cfg.subsidy(height(self.parent, b))
+        if v < 2:
+            return
+        t = self.w.concretise_tx(dict(tx(9002, [(b * 10, 0, 1 + b % 2)], [(v - 1, 2)]), _owner={0: 1 + b % 2}))
+        self.t1 = t
+        self.tx_id = {indep.txid(t): 1}
+        self.spent_reward_of = b
 
     def can_step(self, n, m):
         node = self.net.nodes[n]
@@ -315,7 +340,7 @@ def run(pid, tier, replay=None):
             run_.settle(rng)
             # once they share a head: a transaction from a random node, then settle again
             o = rng.choice(sorted(peers))
-            run_.do({"a": "orig", "n": o, "m": 1})
+            run_.do({"a": "orig", "n": o, "m": 1, "spend": "recent"})
             run_.settle(rng, max_rounds=4)
             key = json.dumps([sorted(parent.items()), sorted((n, sorted(s)) for n, s in init.items()), sorted((n, sorted(s)) for n, s in peers.items()), batch])
             traces_by.setdefault(key, (parent, init, peers, batch, []))[4].append(run_.trace())
